@@ -305,6 +305,7 @@ static void run_orderings(void)
 	enum cl_kind kk = xp_choose(2, XP_SCENARIO, "caller-transport") ? CL_WS : CL_RAW;
 	enum cl_kind ok = xp_choose(2, XP_SCENARIO, "owner-transport") ? CL_WS : CL_RAW;
 	int how_gone = xp_choose(2, XP_SCENARIO, "disconnect-kind"); /* 0 FIN, 1 reset */
+	int owner_empty = xp_choose(2, XP_SCENARIO, "owner-removed-the-element-meanwhile"); /* the requests stay in flight at an owner that owns nothing any more */
 	struct sim_opts o = {0};
 	jx_boot(&o);
 	int O = jx_open(ok), K = jx_open(kk), K2 = jx_open(CL_RAW), B = jx_open(CL_RAW);
@@ -318,6 +319,13 @@ static void run_orderings(void)
 	}
 	if (count_routed(O, 0) != ((sub & 16) ? 2 : 1)) {
 		fail_t("setup-failed", "requests were not routed");
+	}
+	if (owner_empty) {
+		jx_sendf(O, "{\"id\":\"rm\",\"method\":\"remove\",\"params\":{\"path\":\"e\"}}");
+		jx_settle();
+		if (!jx_is_success(jx_find_response_str(O, "rm", 0))) {
+			fail_t("setup-failed", "the owner could not remove its state while requests were in flight");
+		}
 	}
 	int fromK = clients[K].nmsgs;
 	/* make the chosen events ready at the same instant, in a fixed base order; the explorer permutes the dispatch order */
@@ -398,6 +406,21 @@ static void run_orderings(void)
 			fail_t(key, "events %d order #%d split %d: %s", sub, perm_index, split_at, sim_hygiene_event(i));
 		}
 	}
+	/* a peer that arrives now (it may be given the memory of one that left) must not hear of the old requests; then the owner's late
+	 * reply goes nowhere */
+	int N = jx_open(CL_RAW);
+	if (!(sub & 8) && !sim_conn_closed_by_daemon(O)) {
+		for (int i = 0; i < clients[O].nmsgs; i++) {
+			if (clients[O].msgs[i].cls == MC_ROUTED) {
+				jx_sendf(O, "{\"id\":\"%s\",\"result\":\"late\"}", msg_id(&clients[O].msgs[i])->valuestring);
+			}
+		}
+		jx_settle();
+	}
+	jx_expire_all_timers(4);
+	if (clients[N].nmsgs != 0) {
+		fail_t("same-iteration:newcomer-hears-of-an-old-request", "a peer that connected after the batch received %s", clients[N].msgs[0].text);
+	}
 	/* the daemon still serves */
 	jx_sendf(B, "{\"id\":\"probe\",\"method\":\"info\"}");
 	jx_settle();
@@ -407,7 +430,7 @@ static void run_orderings(void)
 	xp_nontrivial();
 	xp_transition();
 	xp_outcome(cl_transcript_hash(K));
-	xp_state(hash_mix(hash_mix((uint64_t)sub * 1000 + (uint64_t)perm_index * 10 + (uint64_t)split_at, (uint64_t)kk * 2 + (uint64_t)ok), cl_transcript_hash(K) ^ cl_transcript_hash(O)));
+	xp_state(hash_mix(hash_mix((uint64_t)sub * 1000 + (uint64_t)perm_index * 10 + (uint64_t)split_at, (uint64_t)kk * 2 + (uint64_t)ok + 4 * (uint64_t)owner_empty), cl_transcript_hash(K) ^ cl_transcript_hash(O)));
 }
 
 static void run(void)
@@ -423,6 +446,6 @@ const struct driver drv_c14 = {
     .name = "c14",
     .property = "C14",
     .run = run,
-    .rule = "section 0: product {12 request timeout forms} x {5 element timeout forms} x {set, call} x {expiry + late reply, reply 1 ns before the deadline, two requests with different deadlines} x caller transport on the virtual clock (deadline - 1 ns: nothing; deadline: exactly one error in that iteration); section 1: every non-empty subset of {owner reply, expiry, caller gone, owner gone, second request's expiry, a fresh request of the second caller} made ready at the same instant x every dispatch order x every split of the batch into two iterations x transports x FIN/reset; every execution is non-trivial",
+    .rule = "section 0: product {12 request timeout forms} x {5 element timeout forms} x {set, call} x {expiry + late reply, reply 1 ns before the deadline, two requests with different deadlines} x caller transport on the virtual clock (deadline - 1 ns: nothing; deadline: exactly one error in that iteration); section 1: every non-empty subset of {owner reply, expiry, caller gone, owner gone, second request's expiry, a fresh request of the second caller} made ready at the same instant x every dispatch order x every split of the batch into two iterations x transports x FIN/reset x {the owner still owns the element, the owner removed it while the requests were in flight}; afterwards a new peer connects and everybody leaves; every execution is non-trivial",
     .assumptions = "the deadline is compared with (uint64_t)(seconds*1e9) +- 1 ns|timeouts above 1e12 s are only required to arm a timer of at least 1e15 ns|the simulated epoll reports whatever order the explorer picks for descriptors that became ready in the same instant (Linux gives no ordering guarantee)",
 };
